@@ -285,6 +285,17 @@ func c07Loop(c *Ctx, r *Report, ci *clientInfo, control bool) map[string]bool {
 		}
 		rep("R7.2", rs.state.entails(atomGE(sum, affConst(1))), "success requires at least one byte received", "", "empty-success", p)
 	}
+	// the loop goes round again only while the reply is incomplete: a complete reply never waits
+	// for more bytes (it would time out)
+	hdr := ci.phi.Block()
+	for _, p := range hdr.Preds {
+		if !isBackEdge(p, hdr) {
+			continue
+		}
+		st := fr.edge[[2]int{p.Index, hdr.Index}]
+		okk := expOK && st.entails(atomLT(sum, expected))
+		rep("R7.2", okk, "another Read is attempted only while fewer than expectedLen bytes have been received", truncate(st.String(), 300), "continues-when-complete", c.pos(p.Instrs[len(p.Instrs)-1].Pos()))
+	}
 	rep("R7.2", nsucc == 1, "do has exactly one success return", fmt.Sprintf("%d", nsucc), "success-returns", c.pos(ci.do.Pos()))
 	// tolerated read errors: the read-error return is taken iff err != nil and neither deadline-exceeded nor EOF
 	var readErr ARef
